@@ -322,8 +322,10 @@ class ProgramSet(NamedItem):
         for prog in self.programs.values():
             if code_name in prog.target_pops:
                 prog.target_pops.remove(code_name)
-            if (prog.name, code_name) in self.covouts:
-                self.covouts.pop((prog.name, code_name))
+
+        for par, pop in list(self.covouts.keys()):  # Covouts are keyed by (parameter, population)
+            if pop == code_name:
+                self.covouts.pop((par, pop))
 
         del self.pops[code_name]
 
